@@ -55,7 +55,8 @@ def ops : List Op := [
       obj [("q", intsToJson r.q), ("bucket", listToJson ratToJson r.bucket),
         ("deq", listToJson ratToJson r.deq),
         ("overflow", Json.bool ((r.bucket ++ r.deq).any f32Overflows))]
-    pure (obj [("00", one false false), ("01", one false true), ("10", one true false), ("11", one true true)])),
+    pure (obj [("00", one false false), ("01", one false true), ("10", one true false), ("11", one true true),
+      ("normal", Json.arr ((normalColsFlat n shape ed arr).map Json.bool).toArray)])),
   -- dtype chosen by the call sites of distributed_shampoo / sm3
   ("call_site_dtype", fun j => do
     let site ← getStr j "site"
